@@ -15,17 +15,29 @@ import (
 // c15SnappyEncode / c15SnappyDecode: snappy's block encoder is assembly on amd64. Its
 // contract (Decode(Encode(x)) == x, the output does not alias the input) is kept by a
 // tagged copy: a one-byte marker followed by the bytes.
+// Like the real functions they write into dst when it is long enough and allocate otherwise.
 func c15SnappyEncode(dst, src []byte) []byte {
-	out := make([]byte, 0, len(src)+1)
-	out = append(out, 0x5a)
-	return append(out, src...)
+	var out []byte
+	if len(dst) >= len(src)+1 {
+		out = dst[:len(src)+1]
+	} else {
+		out = make([]byte, len(src)+1)
+	}
+	out[0] = 0x5a
+	copy(out[1:], src)
+	return out
 }
 
 func c15SnappyDecode(dst, src []byte) ([]byte, error) {
 	if len(src) == 0 || src[0] != 0x5a {
 		return nil, errors.New("snappy: corrupt input")
 	}
-	out := make([]byte, len(src)-1)
+	var out []byte
+	if len(src)-1 <= len(dst) {
+		out = dst[:len(src)-1]
+	} else {
+		out = make([]byte, len(src)-1)
+	}
 	copy(out, src[1:])
 	return out, nil
 }
